@@ -150,6 +150,7 @@ type Stats struct {
 	Steps      int
 	Queries    [3]int
 	Fallbacks  [3]int // queries the main solver left unknown, by verdict of the fallback solvers
+	Restarts   int    // solver processes replaced (watchdog kill or crash)
 	SolverTime time.Duration
 	Funcs      map[string]int
 	Reached    map[string]int
@@ -337,6 +338,7 @@ func (sh *Shared) Run(pkgPath, fnName string, workers int, maxPaths int) (*Stats
 			for k, v := range i.solver.Fallbacks {
 				st.Fallbacks[k] += v
 			}
+			st.Restarts += i.solver.Restarts
 			st.SolverTime += i.solver.Time
 			for f, n := range i.funcSteps {
 				st.Funcs[f.String()] += n
